@@ -475,9 +475,9 @@ def _sniffer(F, body, tr):
 def r6_transport_agreement(ctx):
     F, R = ctx.F, ctx.R
     callers = sorted({fkey(c.body) for c in F.all_calls(r"server::handle_rpc_call$") if not is_test_body(c.body)})
-    exp = ["jsonrpsee_server::transport::http::call_with_service::{closure#0}"]
+    http_ok = [k for k in callers if re.match(r"jsonrpsee_server::transport::http::\w+::\{closure#0\}$", k)]
     ws_ok = [k for k in callers if re.match(WSTASK, k)]
-    R.check(len(callers) == 2 and exp[0] in callers and len(ws_ok) == 1, "C01.R6", "handle_rpc_call:callers", "handle_rpc_call is entered from the HTTP and the WS transport only", "handle_rpc_call is called from %s" % callers, None)
+    R.check(len(callers) == 2 and len(http_ok) == 1 and len(ws_ok) == 1, "C01.R6", "handle_rpc_call:callers", "handle_rpc_call is entered from the HTTP and the WS transport only", "handle_rpc_call is called from %s" % callers, None)
     # only handle_rpc_call drives RpcServiceT on transport input
     for c in F.all_calls(r"RpcServiceT::(call|batch|notification)$"):
         b = c.body
